@@ -30,11 +30,13 @@ type c02Ctx struct {
 	srv *ircserver.IRCServer
 	out *outputstream.OutputStream
 	st  *raftstore.LevelDBStore
+	pb  bool // the node runs with -pre1.0_protobuf
 }
 
 func (c *c02Ctx) enter() {
 	ircServer, outputStream, ircStore = c.srv, c.out, c.st
 	*raftDir = c.w.dir
+	*useProtobuf = c.pb
 }
 
 func (c *c02Ctx) leave() {
@@ -46,7 +48,7 @@ func c02NewCtx(dir string, l c02Log) (*c02Ctx, error) {
 	if err != nil {
 		return nil, err
 	}
-	c := &c02Ctx{w: w}
+	c := &c02Ctx{w: w, pb: *useProtobuf}
 	c.leave()
 	return c, nil
 }
@@ -123,8 +125,9 @@ func TestVerifC02Cluster(t *testing.T) {
 	sigs := map[string]*vViol{}
 	base := t.TempDir()
 	type job struct {
-		log c02Log
-		seq []string
+		log   c02Log
+		seq   []string
+		mixed bool // rolling upgrade: the leader already runs with protobuf, the follower still with JSON
 	}
 	var jobs []job
 	for _, l := range c02Logs(thorough) {
@@ -132,7 +135,35 @@ func TestVerifC02Cluster(t *testing.T) {
 			continue
 		}
 		for _, s := range c02ClusterSchedules(l, length) {
-			jobs = append(jobs, job{l, s})
+			jobs = append(jobs, job{l, s, false})
+		}
+	}
+	// rolling upgrade (mixed encodings): a follower still running with the legacy JSON encoding installs the
+	// protobuf snapshot of an upgraded leader, whose retained entries are copied verbatim into its store.
+	// Only schedules with an install differ from the single-encoding runs; one operation more than above,
+	// because the interesting continuation is install -> own snapshot -> restart.
+	if os.Getenv("VERIF_DEPTH") == "" {
+		for _, l := range c02Logs(thorough) {
+			if l.Name != "all-old" && l.Name != "old-new" && !thorough {
+				continue
+			}
+			if l.Name == "all-new" {
+				continue
+			}
+			for _, s := range c02ClusterSchedules(l, length+1) {
+				inst := -1
+				for k, op := range s {
+					if op == "F:install" {
+						inst = k
+						break
+					}
+				}
+				// the install has to be followed by at least two operations of the follower
+				if inst < 0 || inst > len(s)-3 {
+					continue
+				}
+				jobs = append(jobs, job{l, s, true})
+			}
 		}
 	}
 	installs := 0
@@ -153,12 +184,19 @@ func TestVerifC02Cluster(t *testing.T) {
 		if err != nil {
 			t.Fatal(err)
 		}
+		if j.mixed {
+			*useProtobuf = false
+			res.Mixed++
+		}
 		F, err := c02NewCtx(fmt.Sprintf("%s/F%d", base, ji), j.log)
 		if err != nil {
 			t.Fatal(err)
 		}
 		res.Sequences++
 		full := append([]string{j.log.Name, "cluster"}, j.seq...)
+		if j.mixed {
+			full[1] = "cluster-mixed-encoding"
+		}
 		node := map[string]*c02Ctx{"L": L, "F": F}
 		for oi, op := range j.seq {
 			res.Ops++
